@@ -308,8 +308,9 @@ Qed.
 Definition std_keys : list bytes := map str ["hostname"; "mapname"; "password"; "maxplayers"; "numplayers"; "minplayers"]%string.
 Fixpoint nodupb (l : list bytes) : bool :=
   match l with [] => true | x :: r => negb (existsb (bytes_eqb x) r) && nodupb r end.
-Definition extras_ok (ext : list (bytes * bytes)) : bool :=
-  forallb kv_ok ext && forallb (fun kv => negb (existsb (bytes_eqb (fst kv)) std_keys)) ext && nodupb (map fst ext).
+Definition extras_ok_for (ks : list bytes) (ext : list (bytes * bytes)) : bool :=
+  forallb kv_ok ext && forallb (fun kv => negb (existsb (bytes_eqb (fst kv)) ks)) ext && nodupb (map fst ext).
+Definition extras_ok (ext : list (bytes * bytes)) : bool := extras_ok_for std_keys ext.
 
 Lemma vm_get_cons k k' v (m : vmap) : vm_get k ((k', v) :: m) = if bytes_eqb k k' then Some v else vm_get k m.
 Proof. reflexivity. Qed.
@@ -318,17 +319,18 @@ Lemma map_remove_cons k k' v (m : vmap) :
 Proof. unfold map_remove. cbn [filter fst]. destruct (bytes_eqb k k'); reflexivity. Qed.
 Lemma bytes_eqb_sym a b : bytes_eqb a b = bytes_eqb b a.
 Proof. revert b. induction a as [|x a IH]; intros [|y b]; cbn [bytes_eqb]; try reflexivity. rewrite N.eqb_sym, IH. reflexivity. Qed.
-Lemma ext_get k ext : In k std_keys -> forallb (fun kv => negb (existsb (bytes_eqb (fst kv)) std_keys)) ext = true ->
+Lemma ext_get_for ks k ext : In k ks -> forallb (fun kv => negb (existsb (bytes_eqb (fst kv)) ks)) ext = true ->
   vm_get k ext = None /\ map_remove k ext = ext.
 Proof.
   intros Hk H. induction ext as [|[k' v] ext IH]; [split; reflexivity|].
   cbn [forallb fst] in H. apply andb_prop in H. destruct H as [H1 H2]. destruct (IH H2) as [I1 I2].
   assert (E : bytes_eqb k k' = false).
   { destruct (bytes_eqb k k') eqn:E; [|reflexivity]. apply bytes_eqb_eq in E. subst k'.
-    apply negb_true_iff in H1. assert (X : existsb (bytes_eqb k) std_keys = true) by (apply existsb_exists; exists k; split; [exact Hk|apply bytes_eqb_refl]).
+    apply negb_true_iff in H1. assert (X : existsb (bytes_eqb k) ks = true) by (apply existsb_exists; exists k; split; [exact Hk|apply bytes_eqb_refl]).
     rewrite X in H1. discriminate. }
   rewrite vm_get_cons, map_remove_cons, E, I1, I2. split; reflexivity.
 Qed.
+Definition ext_get := ext_get_for std_keys.
 Lemma fold_ins_fresh : forall ext (m : vmap),
   forallb (fun kv => negb (existsb (fun x => bytes_eqb (fst x) (fst kv)) m)) ext = true -> nodupb (map fst ext) = true ->
   fold_left ins ext m = m ++ ext.
@@ -396,20 +398,30 @@ Proof.
               let r := eval vm_compute in (bytes_eqb (str a) (str b)) in change (bytes_eqb (str a) (str b)) with r end; cbv beta iota);
     reflexivity.
 Qed.
+(* standard variables with keys in ks, then the server's own: the map is the list *)
+Lemma fold_ins_std_ext ks (stdv ext : list (bytes * bytes)) :
+  (forall x, In x stdv -> In (fst x) ks) -> extras_ok_for ks ext = true ->
+  fold_left ins ext stdv = stdv ++ ext.
+Proof.
+  intros Hstd H. unfold extras_ok_for in H. do 2 (apply andb_prop in H; destruct H as [H ?]).
+  apply fold_ins_fresh; [|assumption].
+  apply forallb_forall. intros [k v] Hin. cbn [fst]. apply negb_true_iff.
+  destruct (existsb _ stdv) eqn:E; [|reflexivity]. apply existsb_exists in E. destruct E as [x [Hx Ex]].
+  apply bytes_eqb_eq in Ex. apply Hstd in Hx. rewrite Ex in Hx.
+  rewrite forallb_forall in H1. specialize (H1 _ Hin). cbn [fst] in H1. apply negb_true_iff in H1.
+  assert (X : existsb (bytes_eqb k) ks = true) by (apply existsb_exists; exists k; split; [exact Hx|apply bytes_eqb_refl]).
+  rewrite X in H1. discriminate.
+Qed.
 Lemma vars_map s : extras_ok (s2_extras s) = true -> fold_left ins (s2_vars s) [] = s2_vars s.
 Proof.
-  intros H. unfold extras_ok in H. do 2 (apply andb_prop in H; destruct H as [H ?]).
-  rewrite s2_vars_split, fold_left_app, std_vars_map. apply fold_ins_fresh; [|assumption].
-  apply forallb_forall. intros [k v] Hin. cbn [fst]. apply negb_true_iff.
-  destruct (existsb _ (std_vars s)) eqn:E; [|reflexivity]. apply existsb_exists in E. destruct E as [x [Hx Ex]].
-  apply bytes_eqb_eq in Ex. apply std_vars_keys in Hx. rewrite Ex in Hx.
-  rewrite forallb_forall in H1. specialize (H1 _ Hin). cbn [fst] in H1. apply negb_true_iff in H1.
-  assert (X : existsb (bytes_eqb k) std_keys = true) by (apply existsb_exists; exists k; split; [exact Hx|apply bytes_eqb_refl]).
-  rewrite X in H1. discriminate.
+  intros H. rewrite s2_vars_split, fold_left_app, std_vars_map.
+  apply (fold_ins_std_ext std_keys); [apply std_vars_keys|exact H].
 Qed.
 
 Lemma bind_lift_ok {A B} (a : A) (f : A -> R B) b : bind (lift (Ok a)) f b = f a b.
 Proof. reflexivity. Qed.
+Lemma key_in ks k : existsb (bytes_eqb k) ks = true -> In k ks.
+Proof. intros H. apply existsb_exists in H. destruct H as [x [Hx E]]. apply bytes_eqb_eq in E. subst x. exact Hx. Qed.
 Lemma std_key_in k : existsb (bytes_eqb k) std_keys = true -> In k std_keys.
 Proof. intros H. apply existsb_exists in H. destruct H as [x [Hx E]]. apply bytes_eqb_eq in E. subst x. exact Hx. Qed.
 
@@ -417,7 +429,7 @@ Theorem gs2_roundtrip : forall s, wf_s2 s = true -> gs2_parse (s2_reply s) = Ok 
 Proof.
   intros s H. unfold wf_s2 in H. do 10 (apply andb_prop in H; destruct H as [H ?]).
   rename H into Hname, H0 into Htl, H1 into Hts, H2 into Hpl, H3 into Hps, H4 into Hext, H5 into Hmin, H6 into Hnum, H7 into Hmax, H8 into Hpw, H9 into Hmap.
-  pose proof Hext as Hext0. unfold extras_ok in Hext. do 2 (apply andb_prop in Hext; destruct Hext as [Hext ?]).
+  pose proof Hext as Hext0. unfold extras_ok, extras_ok_for in Hext. do 2 (apply andb_prop in Hext; destruct Hext as [Hext ?]).
   rename Hext into Hekv, H into Hend, H0 into Hestd.
   unfold gs2_parse, run_r, s2_reply. change (buf_new ?d) with (at_ [] d).
   rewrite player_table_is, team_table_is.
